@@ -1,5 +1,26 @@
 import H5V.Model.Utf8
 import H5V.Spec.Utf8
+/-!
+C10 — byte-stream front ends decode exactly like a whole-input lossy decode.
+
+Main results (all for **every** list of chunks, no bounds):
+* `stdStep_eq_head` — the modelled `core::str::from_utf8` accepts/rejects exactly as Unicode Table 3-7
+  (`H5V.Spec.Utf8.head`), with the same `error_len`s.
+* `C10_utf8_chunking` — the model of `Utf8LossyDecoder` (process/finish, `decode_utf8`,
+  `IncompleteUtf8::try_complete_offsets`) returns `.ok` (no panic branch, loop fuel suffices) and the
+  stream of sink calls, errors marked in place, equals the spec's `marked` stream of the concatenation.
+  Proved by the invariant `∀ fut, marked (pending ++ rest-of-chunk ++ fut) = emitted ++ marked (pending' ++ fut)`
+  which relates the buffered incomplete prefix to the unread suffix.
+* corollaries `C10_utf8_text_errors` (text = `lossyBytes`, #errors = `replacements`), `C10_no_panic`,
+  `C10_chunking_independent`, `C10_pieces_wellformed`.
+* spec sanity: `C10_lossyBytes_roundtrip` (the delivered bytes are well-formed and decode to the same
+  scalar values) and `C10_scalar_valid` (shortest form, no surrogates, ≤ U+10FFFF).
+* `C10_encoding_rs_partial` (+ `_finish_drains`, `_eof_witness`) — `decode_to_sink` against an arbitrary
+  abstract decoder.  **Partial**: the real encoding_rs decoders are not modelled.
+
+Not proved here: `C10_parse` of DESIGN.md 6.10 (tree via `from_utf8()` = tree of the lossy string) —
+it needs the tokenizer / tree-builder models and C03; the `utf8 parse` family checks it on the real code.
+-/
 namespace H5V.Props.C10
 open H5V.Model.Utf8 H5V.Spec.Utf8
 
@@ -854,17 +875,19 @@ def callMarked (c : DecoderResult × List UInt8) : List (Option UInt8) :=
 
 /-- **C10 for `LossyDecoder` over encoding_rs — partial.**  Against an *arbitrary* abstract decoder,
 `decode_to_sink` forwards every output of every decoder call, in order, adds exactly one
-`error` + U+FFFD per `Malformed` result and nothing else, and it stops only after an `InputEmpty`
-result or when no unread input is left.
+`error` + U+FFFD per `Malformed` result and nothing else; it returns only after an `InputEmpty`
+result, or — in the middle of the stream (`last = false`) — when no unread input is left.  In
+particular at end of stream (`finish`: `last = true`) the decoder is always driven to `InputEmpty`, so
+nothing it still holds is lost.
 Missing for the full statement (equality with a one-shot decode): that the real encoding_rs decoders
-are streaming-consistent (their documented contract; exercised, not proved, by the `utf8 enc` family)
-— and the second stopping condition is a genuine gap at end of stream, see the witness below. -/
+are streaming-consistent (their documented contract: feeding `a` then `b` equals feeding `a ++ b`, and
+progress on every call) — exercised, not proved, by the `utf8 enc` family. -/
 theorem C10_encoding_rs_partial {σ} (D : AbstractDecoder σ) (fuel : Nat) (st : σ) (input : List UInt8)
     (last : Bool) (evs : List Event) {st' : σ} {evs' : List Event} {r : DecoderResult} {rem : List UInt8}
     (h : decodeToSink D fuel st input last evs = .ok (st', evs', r, rem)) :
     ∃ new, evs' = evs ++ new ∧
       markedOf new = (callTrace D fuel st input last).flatMap callMarked ∧
-      (r = .inputEmpty ∨ rem = []) := by
+      (r = .inputEmpty ∨ (last = false ∧ rem = [])) := by
   induction fuel generalizing st input evs with
   | zero => simp [decodeToSink] at h
   | succ fuel ih =>
@@ -893,7 +916,7 @@ theorem C10_encoding_rs_partial {σ} (D : AbstractDecoder σ) (fuel : Nat) (st :
           · rename_i hemp
             simp only [Except.ok.injEq, Prod.mk.injEq] at h
             obtain ⟨rfl, rfl, rfl, rfl⟩ := h
-            refine ⟨(if out.length > 0 then [Event.text out] else []), ?_, ?_, Or.inr (by simpa using hemp)⟩
+            refine ⟨(if out.length > 0 then [Event.text out] else []), ?_, ?_, Or.inr (by simpa [and_comm] using hemp)⟩
             · simp only [beq_iff_eq, reduceCtorEq, ↓reduceIte]; exact hev
             · simp [hout, callMarked, hemp]
           · rename_i hemp
@@ -910,7 +933,7 @@ theorem C10_encoding_rs_partial {σ} (D : AbstractDecoder σ) (fuel : Nat) (st :
             simp only [Except.ok.injEq, Prod.mk.injEq] at h
             obtain ⟨rfl, rfl, rfl, rfl⟩ := h
             refine ⟨(if out.length > 0 then [Event.text out] else []) ++ [.error, .text replacement], ?_, ?_,
-              Or.inr (by simpa using hemp)⟩
+              Or.inr (by simpa [and_comm] using hemp)⟩
             · simp only [beq_self_eq_true, ↓reduceIte, hev, List.append_assoc]
             · simp [hout, callMarked, hemp, markedOf_repl]
           · rename_i hemp
@@ -921,6 +944,15 @@ theorem C10_encoding_rs_partial {σ} (D : AbstractDecoder σ) (fuel : Nat) (st :
             · have e : markedOf (Event.error :: Event.text replacement :: new) = replMarked ++ markedOf new := by
                 rw [← markedOf_repl, ← markedOf_append]; rfl
               simp [hout, callMarked, hemp, e, hm]
+
+/-- at end of stream (`LossyDecoder::finish`) the decoder is driven until it reports `InputEmpty` -/
+theorem C10_encoding_rs_finish_drains {σ} (D : AbstractDecoder σ) (fuel : Nat) (st : σ) (evs : List Event)
+    {st' : σ} {evs' : List Event} {r : DecoderResult} {rem : List UInt8}
+    (h : decodeToSink D fuel st [] true evs = .ok (st', evs', r, rem)) : r = .inputEmpty := by
+  obtain ⟨_, _, _, hstop⟩ := C10_encoding_rs_partial D fuel st [] true evs h
+  rcases hstop with h | ⟨h, _⟩
+  · exact h
+  · cases h
 
 /-- a toy decoder with output pending behind a malformed sequence at end of stream (the shape of
 encoding_rs's ISO-2022-JP decoder after `ESC $`): state 1 = "ESC $ seen", state 2 = "`$` still to be
@@ -933,16 +965,15 @@ def toyDecoder : AbstractDecoder Nat where
     | 2 => (0, .inputEmpty, input.length, [0x24])
     | _ => (0, .inputEmpty, input.length, input)
 
-/-- **Witness of the end-of-stream gap.**  `LossyDecoder::finish` calls
-`decode_to_sink(empty, last = true)`; after a `Malformed` result the loop returns because the input is
-empty, although the decoder was not driven to `InputEmpty`: the toy decoder's pending `$` is never
-requested (a second call would deliver it).  The real ISO-2022-JP decoder behaves the same on input
-`1b 24` (case `utf8 enc iso-2022-jp 1b 24`). -/
+/-- **Regression witness of the former end-of-stream gap** (fixed in /repo by
+"fix: LossyDecoder::finish drains the encoding_rs decoder after a malformed sequence"; before the fix
+the loop returned after the `Malformed` result because the input was empty, and the pending `$` was
+lost).  Now `finish` on the toy decoder delivers the error, U+FFFD *and* the pending `$`, as the real
+ISO-2022-JP decoder does on input `1b 24` (corpus case `utf8 enc iso-2022-jp 1b 24`). -/
 theorem C10_encoding_rs_eof_witness :
-    decodeToSink toyDecoder 10 1 [] true [] = .ok (2, [.error, .text replacement], .malformed, []) ∧
-    (toyDecoder.decode 2 [] (capOf toyDecoder 2 []) true).2.2.2 = [0x24] := by
-  constructor <;> rfl
-
+    decodeToSink toyDecoder 10 1 [] true [] =
+      .ok (0, [.error, .text replacement, .text [0x24]], .inputEmpty, []) := by
+  rfl
 
 /-! ### the delivered bytes decode back to the same scalar values -/
 
